@@ -530,6 +530,14 @@ func (s *Fn) boundsOf(in ssa.Instruction) []Lin {
 			return f
 		}
 		var out []Lin
+		if b, ok := v.Call.Value.(*ssa.Builtin); ok && b.Name() == "append" && len(v.Call.Args) == 2 && isSliceOrStr(v.Type()) {
+			// len(append(s, t...)) == len(s) + len(t)
+			r := s.lenOf(v)
+			sum := s.lenOf(v.Call.Args[0]).add(s.lenOfX(v.Call.Args[1]), 1)
+			out = append(out, le(r, sum), le(sum, r))
+			s.callF[in] = out
+			return out
+		}
 		if b, ok := v.Call.Value.(*ssa.Builtin); ok && (b.Name() == "min" || b.Name() == "max") && isInt(v.Type()) {
 			if bits, uns := intWidth(v.Type()); bits == 64 && !uns {
 				r := s.canon(v)
@@ -1188,6 +1196,17 @@ func (s *Fn) houdini() {
 					p := p
 					cands = append(cands, &phiCand{b: b, phi: phi, ok: true, txt: "len<=len",
 						mk: func(v ssa.Value) Lin { return le(s.lenOf(v), s.lenOf(p)) }})
+				}
+				// a slice that only grows in the loop (append): at least one element, at least its initial length
+				cands = append(cands, &phiCand{b: b, phi: phi, ok: true, txt: "len>=1",
+					mk: func(v ssa.Value) Lin { return le(konst(1), s.lenOf(v)) }})
+				for i, pr := range b.Preds {
+					if b.Dominates(pr) {
+						continue
+					}
+					init := phi.Edges[i]
+					cands = append(cands, &phiCand{b: b, phi: phi, ok: true, txt: "len>=len(init)",
+						mk: func(v ssa.Value) Lin { return le(s.lenOf(init), s.lenOf(v)) }})
 				}
 			}
 		}
